@@ -112,16 +112,17 @@ type GlobalInv struct {
 }
 
 type ContractTable struct {
-	GlobalInvs []*GlobalInv
-	Funcs      map[string]*Contract
-	Specs      map[string]*SpecFun
-	Ghosts     map[string]*GhostVar
-	Lemmas     []*Lemma
-	EffectFree []string // prefixes of function keys treated as effect-free with unconstrained result
-	PurePkgs   []string
-	Files      []string
-	Errors     []string
-	InitOnly   map[string][]string // function key -> fields of its receiver type it may initialise
+	GlobalInvs   []*GlobalInv
+	Funcs        map[string]*Contract
+	Specs        map[string]*SpecFun
+	Ghosts       map[string]*GhostVar
+	Lemmas       []*Lemma
+	ImmutableExt []string // field components of third-party structs declared immutable (trusted; in-repo stores are scanned)
+	EffectFree   []string // prefixes of function keys treated as effect-free with unconstrained result
+	PurePkgs     []string
+	Files        []string
+	Errors       []string
+	InitOnly     map[string][]string // function key -> fields of its receiver type it may initialise
 }
 
 func NewContractTable() *ContractTable {
@@ -279,6 +280,16 @@ func (ct *ContractTable) LoadFile(path, pkg string, inRepo bool) {
 			}
 			ct.InitOnly[key] = append(ct.InitOnly[key], strings.Fields(fl)...)
 			cur, curSpec, curLemma = nil, nil, nil
+		case "immutablefield":
+			// immutablefield <pkg/path.Type.field> ...: (trusted) nobody writes the field after the
+			// object was handed to heimdall; the engine checks that no in-repo function stores to it
+			if inRepo {
+				ct.errf(path, ln, "immutablefield is only legal in /verif/specs")
+				continue
+			}
+			for _, f := range strings.Fields(rest) {
+				ct.ImmutableExt = append(ct.ImmutableExt, "F:"+f)
+			}
 		case "effectfree":
 			if inRepo {
 				ct.errf(path, ln, "effectfree is only legal in /verif/specs")
